@@ -51,6 +51,10 @@ class C01(Property):
             res.append(("malformed", "H %s %s %s" % (BACKENDS[i % 2], rng.choice(["f", "0"]), " ".join(ops))))
         return res
 
+    def project(self, line):
+        # C01 is about structure and text; which allocations are shared is C04's business
+        return line.rsplit(" || share ", 1)[0] + " || share -" if " || share " in line else line
+
     def spec(self, case, impl):
         return check_history_line(case, impl)
 
